@@ -221,7 +221,7 @@ def _run_obligation(ob, units, astinfo, workdir, tier):
             d = ch.get('description', '')
             if ch.get('status') == 'FAILURE' and ('unwinding assertion' in d or 'recursion unwinding' in d):
                 raise Undecided('unwinding bound too small for this tree: %s (%s)' % (d, ch.get('property')))
-        reach_seen = 0
+        reach_seen = 0; unknown = []
         entry_fn = ob.get('entry', 'main')
         for ch in checks:
             d = ch.get('description', ''); st = ch.get('status')
@@ -239,8 +239,12 @@ def _run_obligation(ob, units, astinfo, workdir, tier):
                 raise Undecided('unwinding bound too small for this tree: %s (%s)' % (d, ch.get('property')))
             if st == 'FAILURE':
                 res['failed'].append({'property': ch.get('property'), 'description': d, 'loc': ch.get('sourceLocation', {})})
+            elif st == 'UNKNOWN':
+                unknown.append(ch.get('property'))
             elif st not in ('SUCCESS',):
                 raise Undecided('check %s has status %s' % (ch.get('property'), st))
+        # CBMC reports checks downstream of a refuted one as UNKNOWN: harmless next to a refutation, undecided otherwise
+        if unknown and not res['failed']: raise Undecided('checks with status UNKNOWN: %s' % unknown[:3])
         if reach_seen < ob.get('min_reach', 1): raise Undecided('vacuity: expected >= %d REACH markers, saw %d' % (ob.get('min_reach', 1), reach_seen))
         if len(checks) - reach_seen < ob.get('min_checks', 1): raise Undecided('vacuity: no obligations generated')
         res['status'] = 'fail' if res['failed'] else 'pass'
